@@ -25,7 +25,9 @@ import (
 
 	authenticationv1 "k8s.io/api/authentication/v1"
 	v1 "k8s.io/api/core/v1"
+	apierrors "k8s.io/apimachinery/pkg/api/errors"
 	"k8s.io/apimachinery/pkg/runtime"
+	"k8s.io/apimachinery/pkg/runtime/schema"
 	"k8s.io/apiserver/pkg/audit"
 	"k8s.io/apiserver/pkg/authentication/serviceaccount"
 	"k8s.io/apiserver/pkg/authentication/user"
@@ -50,7 +52,9 @@ func WithNoLoggingImpersonation(handler http.Handler, a authorizer.Authorizer, s
 		impersonationRequests, err := buildImpersonationRequests(req.Header)
 		if err != nil {
 			klog.V(4).Infof("%v", err)
-			responsewriters.InternalError(w, req, err)
+			// like every request the gateway terminates, this one is answered with a Status object
+			// (responsewriters.InternalError writes plain text); the code stays 500 as in k8s.io/apiserver
+			responsewriters.ErrorNegotiated(apierrors.NewInternalError(err), s, schema.GroupVersion{Version: "v1"}, w, req)
 			return
 		}
 		if len(impersonationRequests) == 0 {
